@@ -97,6 +97,12 @@ Proof.
   - constructor.
 Qed.
 
+Definition closed (m : muxw) : bool := m_sr m && m_sw m.
+
+(* the channel table changes only when a wrapper becomes closed *)
+Definition chan_change_ok (m m' : muxw) (x x' : mux) : Prop :=
+  x_chan x' (m_chan m) = x_chan x (m_chan m) \/ (closed m = false /\ closed m' = true /\ x_chan x' (m_chan m) = None).
+
 Lemma maybe_close_ext m x fid : mux_ext (m_chan m) fid x (m_maybe_close m x) [].
 Proof.
   unfold m_maybe_close. destruct (m_sr m && m_sw m).
@@ -185,4 +191,64 @@ Proof.
       - rewrite takeN_all by lia. lia. }
     splits; auto; try discriminate; try lia.
     apply mux_send_ext. auto.
+Qed.
+
+(* ---------------- channel-table changes ---------------- *)
+Lemma cc_refl m x : chan_change_ok m m x x.
+Proof. left. reflexivity. Qed.
+
+Lemma mux_send_chan x c cmd d f k : x_chan (mux_send x c cmd d f) k = x_chan x k.
+Proof. reflexivity. Qed.
+
+Lemma setnoread_cc m x : chan_change_ok m (fst (m_setnoread m x)) x (snd (m_setnoread m x)).
+Proof.
+  unfold m_setnoread, chan_change_ok, closed. destruct (m_sr m) eqn:E; cbn [fst snd]; [left; reflexivity|].
+  unfold m_maybe_close. cbn [m_sr m_sw m_chan]. destruct (m_sw m); cbn [andb].
+  - right. splits; auto. cbn. apply upd_same.
+  - left. reflexivity.
+Qed.
+
+Lemma setnowrite_cc m x : chan_change_ok m (fst (m_setnowrite m x)) x (snd (m_setnowrite m x)).
+Proof.
+  unfold m_setnowrite, chan_change_ok, closed. destruct (m_sw m) eqn:E; cbn [fst snd]; [left; reflexivity|].
+  unfold m_maybe_close. cbn [m_sr m_sw m_chan]. destruct (m_sr m); cbn [andb].
+  - right. splits; auto. cbn. apply upd_same.
+  - left. reflexivity.
+Qed.
+
+Lemma noread_cc m x fid : chan_change_ok m (fst (m_noread m x fid)) x (snd (m_noread m x fid)).
+Proof.
+  unfold m_noread. destruct (m_sr m) eqn:E; [apply cc_refl|].
+  pose proof (setnoread_cc m (mux_send x (m_chan m) CStop [] (Some fid))) as H.
+  unfold chan_change_ok in *. rewrite mux_send_chan in H. exact H.
+Qed.
+
+Lemma nowrite_cc m x fid : chan_change_ok m (fst (m_nowrite m x fid)) x (snd (m_nowrite m x fid)).
+Proof.
+  unfold m_nowrite. destruct (m_sw m) eqn:E; [apply cc_refl|].
+  pose proof (setnowrite_cc m (mux_send x (m_chan m) CEof [] (Some fid))) as H.
+  unfold chan_change_ok in *. rewrite mux_send_chan in H. exact H.
+Qed.
+
+Lemma closed_mono m m' : muxw_mono m m' -> closed m = true -> closed m' = true.
+Proof.
+  unfold closed. intros (_ & H1 & H2) H. apply andb_true_iff in H. destruct H as [A B].
+  rewrite (H1 A), (H2 B). reflexivity.
+Qed.
+
+(* composition: m -> m1 -> m2 with the same channel *)
+Lemma cc_trans m m1 m2 x x1 x2 :
+  muxw_mono m m1 -> muxw_mono m1 m2 ->
+  chan_change_ok m m1 x x1 -> chan_change_ok m1 m2 x1 x2 -> chan_change_ok m m2 x x2.
+Proof.
+  intros M1 M2 H1 H2. unfold chan_change_ok in *.
+  assert (Ec : m_chan m1 = m_chan m) by apply M1. rewrite Ec in H2.
+  destruct H2 as [H2|(A & B & C)].
+  - rewrite H2. destruct H1 as [H1|(A & B & C)]; [left; exact H1|].
+    right. splits; auto. eapply closed_mono; eassumption.
+  - destruct H1 as [H1|(A' & B' & C')].
+    + right. splits; auto.
+      destruct (closed m) eqn:E; [|reflexivity].
+      rewrite (closed_mono m m1 M1 E) in A. discriminate.
+    + congruence.
 Qed.
